@@ -60,3 +60,30 @@ PROPS = {
     'C16': dict(module='Daac.Props.C16', prop_ids=['C16'], custom='cli_check', profiles=[],
                 suites={'K-cli': None}, invs=[]),
 }
+
+# what the theorems of each property state, what is left to the correspondence / runtime
+_NOTES = {
+ 'C01': ('for every valid collection and num_free_blocks: model build ok => overlapping search of every haystack = specOverlapping = exactly the occurrences, no repeats, end-ascending then longest first (byte-wise: bytes; char-wise: valid UTF-8); plus the same from the evaluated invariants of the real tables',
+         'totality of the post-insertion phases; model builder tied to the code by K-build (sampling)'),
+ 'C02': ('model build ok => find_iter on every haystack = specFind = the unique FindSpec sequence', 'as C01'),
+ 'C03': ('model build ok (leftmost-longest) => leftmost_find_iter on every haystack = specLL = the unique greedy tiling; (F),(G1),(G3) of the non-textbook automaton proved', 'as C01'),
+ 'C04': ('model build ok (leftmost-first, all patterns incl. shadowed) => results = specLF; specLF = specLL o retained; shadowed patterns never reported and irrelevant', 'as C01'),
+ 'C05': ('model build ok => no-suffix search on every haystack = specNoSuffix = longest occurrence per end position', 'as C01'),
+ 'C06': ('every element of every specification result is an occurrence carrying the registered value, for all value types', 'values after a round trip rest on C09 + K-serial'),
+ 'C07': ('model build ok => boundsInv => no out-of-range table access in any search on any haystack; UTF-8 decoder never faults on valid UTF-8; leftmost re-slicing always on a boundary', 'real memory behaviour of compiled code: only exercised with std UB checks armed'),
+ 'C08': ('byte-wise and char-wise model builds from the same UTF-8 patterns return identical matches on every valid UTF-8 haystack (all four standard/leftmost methods incl. leftmost-first)', 'as C01'),
+ 'C09': ('deserialize(serialize a ++ rest) = (a, rest) for every well-formed automaton value, lawful value types; kind byte and width tables generated from the source', 'K-serial ties the byte format to the code (built automata and synthetic images)'),
+ 'C10': ('insertion succeeds iff the collection is valid; invalid => documented error naming a present defect; success => valid', 'totality of the later phases (no panic on valid input) — in progress; outcome compared with the code on every generated collection'),
+ 'C11': ('for any two num_free_blocks values with successful model builds every search method returns identical results; num_states independent of it', 'as C01'),
+ 'C12': ('match end = bytes pulled, monotone single pass, exhaustion pulls |h|, for arbitrary tables', 'slice adapters are the same source in the model; compared on both entry points incl. an exact-size_hint source'),
+ 'C13': ('model build ok (standard) => at most 2 transitions per item, scans terminate; fail links strictly shorten; leftmost iterators return', 'real loop counter compared with the model on every scan; watchdog'),
+ 'C14': ('model build deterministic and permutation-invariant for kinds 0/1 (both variants); counter-example for kind 2', 'thread schedules not modelled: purity scan + 4-thread runs'),
+ 'C15': ('numStates = 1 + number of distinct non-empty prefixes of reportable patterns; every state reachable at distinct in-range indices; num_elements >= num_states', 'heap_bytes formula uses measured size_of constants'),
+ 'C16': ('printed iff an occurrence exists; text unchanged; highlighted bytes = bytes covered by an occurrence', 'clap, I/O, termcolor exercised via both binaries, not modelled'),
+}
+for _k, (_s, _r) in _NOTES.items():
+    PROPS[_k]['statement'] = _s
+    PROPS[_k]['residue'] = _r
+    PROPS[_k].setdefault('assumptions', ['haystack bytes are < 256 (byte-wise) / valid UTF-8 (char-wise)',
+                                         'pattern collections within the documented size limits (u32 / 2^24-1 patterns)',
+                                         'model = code is established by the correspondence suites on generated inputs, not by proof'])
